@@ -81,6 +81,24 @@ def random_sessions(rng, count):
     return out
 
 
+def wider_sessions(rng, count):
+    """9 to 14 elements (two-digit ids), ties so that ids are given in set-iteration order, one or two removals"""
+    out = []
+    for k in range(count):
+        D = ac.larger_dataset(rng, 14, 6)
+        if k % 2 and D[0]:
+            D = [[sorted(set(D[0][0] + (D[0][1] if len(D[0]) > 1 else [])))] + D[0][2:]] + D[1:]
+        n = max(grids.universe(D))
+        if len(grids.universe(D)) < 9:
+            continue
+        ops = [{"op": "remove_elements", "S": sorted(rng.sample(range(1, n + 1), 2)), "raw": k % 2}]
+        if k % 3 == 0:
+            ops.append({"op": "remove_rate", "p": 1, "q": 2})
+        out.append({"D": D, "naming": ["ints", "letters", "collide", "scatter", "big"][k % 5], "ops": ops, "ne": n + 1,
+                    "log_construct": 1})
+    return out
+
+
 def many_rankings_sessions(rng, count):
     out = []
     for _ in range(count):
@@ -148,6 +166,9 @@ def stages(tier, rng, only=None):
            Stage("very_many_rankings", "Trace_Dataset", datarun.run_session,
                  lambda: many_rankings_sessions(rng, 6 if tier == "quick" else 40), _nt_step, datarun.init,
                  post=datarun.flatten, chunk=50),
+           Stage("wider_projections", "Trace_Dataset", datarun.run_session,
+                 lambda: wider_sessions(rng, 60 if tier == "quick" else 600), _nt_step, datarun.init,
+                 post=datarun.flatten, chunk=200),
            Stage("rankings", "Trace_Dataset", datarun.run_ranking, lambda: ranking_cases(tier, rng),
                  lambda r: len(r["obs"]["rk"]) >= 2, datarun.init)]
     out += extras_common.c16_stages(tier, rng)      # specified behaviour outside the listed properties (drift only)
